@@ -129,14 +129,15 @@ HeatStepIsStencil(N, r) ==
 \* ---- the model cases ------------------------------------------------------------------------
 MaxAbelN == IF Size = 0 THEN 2 ELSE IF Size = 1 THEN 5 ELSE 7
 \* <<r, K>>: r = dt/dx^2 and the number of steps; kept small enough for 32-bit rationals
-HeatRK   == {<<Q(1, 2), K>> : K \in 1..9} \cup {<<Q(1, 4), K>> : K \in 1..6} \cup {<<Q(1, 3), K>> : K \in 1..5}
+HeatRK   == {<<Q(1, 2), K>> : K \in 1..9} \cup {<<Q(5, 8), K>> : K \in 1..2} \cup {<<Q(3, 4), 1>>}
+                \cup {<<Q(1, 4), K>> : K \in 1..4} \cup {<<Q(1, 3), K>> : K \in 1..3}
 ModelCases ==
        { [kind |-> "abel", N |-> N, h |-> h] : N \in 2..MaxAbelN, h \in {Q(1, 2), Q(1, 4), Q(1, 1), Q(2, 3)} }
   \cup { [kind |-> "wang"] }
   \cup UNION { { [kind |-> "poisson", dim |-> d, dx |-> dx, kappa |-> k, f |-> f] :
                    k \in Kappas(d), f \in Sources(d - 1), dx \in {Q(1, 1), Q(1, 2)} } : d \in 3..(IF Size = 1 THEN 4 ELSE 5) }
   \cup UNION { { [kind |-> "heat", N |-> N, r |-> rk[1], K |-> rk[2], u0 |-> u0] :
-                   u0 \in HeatICs(N), rk \in HeatRK } : N \in 2..(IF Size = 1 THEN 3 ELSE 4) }
+                   u0 \in HeatICs(N), rk \in HeatRK } : N \in 2..(IF Size = 0 THEN 2 ELSE 4) }
 
 HeatR(o) == o.r
 
